@@ -129,3 +129,18 @@ def flatten_elems(t):
                 return "%s[%d]" % (base, i)
         return tuple(flatten_elems(x) for x in t)
     return t
+
+
+def flatten_views(t, base="top:buffer"):
+    """rewrite element reads through views of `base` - ((view expr, '.*[i]') or (view expr, '[i]')) - into `base[lo + i]`"""
+    if isinstance(t, (list, tuple)):
+        if isinstance(t, tuple) and len(t) == 2 and isinstance(t[1], str):
+            m = re.match(r"^((?:\.\*|\.ok|\.some|\.0|\.1)*)\[(\d+)\]$", t[1])
+            if m:
+                inner = (t[0], m.group(1)) if m.group(1) else t[0]
+                v = slice_view(inner, base)
+                if v is not None:
+                    return "%s[%d]" % (base, v[0] + int(m.group(2)))
+        r = [flatten_views(x, base) for x in t]
+        return tuple(r) if isinstance(t, tuple) else r
+    return t
